@@ -10,7 +10,7 @@ from ..runner import Harness
 from ..pse import truth, SymInt
 from .. import pse
 
-BEHAVIOURS = ["conn-error", "timeout-exc", "http-500", "json-invalid", "json-null", "json-list", "json-no-tag",
+BEHAVIOURS = ["conn-error", "timeout-exc", "http-500", "http-429-ratelimited", "json-invalid", "json-null", "json-list", "json-no-tag",
               "tag:v99.0.0", "tag:99.0.0", "tag:0.0.1", "tag:99.0.0rc1", "tag:99.0.0.dev1", "tag:garbage", "tag:",
               "tag:release-99.1", "tag:v1.1.2026092714223300000000-nightly", "tag:" + "9" * 400, "tag:1." * 60 + "x"]
 HANG = 10 ** 9
@@ -22,9 +22,18 @@ def make_get(behaviour, on_call):
     import requests
 
     class Resp:
+        status_code = {"http-500": 500, "http-429-ratelimited": 429}.get(behaviour, 200)
+        ok = status_code < 400
+        reason = "rate limit exceeded" if status_code == 429 else "OK"
+        # what GitHub sends with a rate-limited answer
+        headers = {"X-RateLimit-Limit": "60", "X-RateLimit-Remaining": "0", "X-RateLimit-Reset": str(int(time.time()) + 600),
+                   "Retry-After": "600"} if behaviour == "http-429-ratelimited" else {"X-RateLimit-Remaining": "59"}
+
         def raise_for_status(self):
             if behaviour == "http-500":
-                raise requests.exceptions.HTTPError("500 Server Error")
+                raise requests.exceptions.HTTPError("500 Server Error", response=self)
+            if behaviour == "http-429-ratelimited":
+                raise requests.exceptions.HTTPError("429 Client Error: rate limit exceeded", response=self)
 
         def json(self):
             if behaviour == "json-invalid":
@@ -199,7 +208,11 @@ def model(sym):
         def monotonic():
             return Ms(main_clock())
 
-        time = perf_counter = monotonic
+        perf_counter = monotonic
+
+        @staticmethod
+        def time():
+            return time.time()  # calendar time is the real one (only durations are modelled)
 
         @staticmethod
         def sleep(s):
@@ -251,11 +264,13 @@ def model(sym):
             st["started"] = st.get("started", 0) + 1
 
         def join(self, timeout=None):
+            if not st.get("started"):
+                raise RuntimeError("cannot join thread before it is started")  # what threading.Thread does
             st["joins"].append(timeout if not isinstance(timeout, Ms) else "computed")
             block(self, timeout)
 
         def is_alive(self):
-            return not st.get("ran")
+            return bool(st.get("started")) and not st.get("ran")
 
         def __getattribute__(self, name):
             if st["ctx"] == "main" and st.get("armed") and not name.startswith("__") and name not in ("join", "start", "run", "daemon"):
@@ -278,11 +293,28 @@ def model(sym):
             if mod.__dict__.get(name) is real_mod:
                 saved_mods[(mod, name)] = real_mod
                 setattr(mod, name, fake)
+    # what an earlier invocation of the tool may have left behind in the user's cache / config folders
+    earlier = sym.choose("earlier_invocation_got", ["nothing", "http-429-ratelimited", "tag:v99.0.0"])
+    import shutil
+    home = tempfile.mkdtemp(prefix="mhlverif-c20-home-")
+    saved_env = {k: os.environ.get(k) for k in ("HOME", "XDG_CACHE_HOME", "XDG_CONFIG_HOME", "XDG_STATE_HOME")}
+    os.environ.update(HOME=home, XDG_CACHE_HOME=home + "/cache", XDG_CONFIG_HOME=home + "/config", XDG_STATE_HOME=home + "/state")
     try:
+        if earlier != "nothing":
+            U.requests = types.SimpleNamespace(get=make_get(earlier, lambda: None), exceptions=requests.exceptions, RequestException=requests.RequestException)
+            first = Spy()
+            if st.get("started"):
+                ctx0, st["ctx"] = st["ctx"], "checker"
+                try:
+                    U.Updater.run(first)
+                except Exception:
+                    pass
+                st["ctx"] = ctx0
+            st["prints_checker"], st["prints_main"], st["started"] = [], [], 0
+            U.requests = fake_requests
         spy = Spy()
         st["spy"] = spy
-        pse.require(st.get("started") == 1, "thread-started-once", str(st.get("started")))
-        pse.require(st.get("started") == 1, "thread-started-once", str(st.get("started"))) if False else None
+        pse.require(st.get("started", 0) <= 1, "thread-started-once", str(st.get("started")))
         CLI.updater = spy
         # the command group is driven the way the console script drives it, with a stand-in command that takes D ms and ends
         # like a real one does: normally, or with one of the tool's error codes
@@ -331,12 +363,20 @@ def model(sym):
         LG.click, LG.verbose_logging = saved_lg
         for (mod, name), real_mod in saved_mods.items():
             setattr(mod, name, real_mod)
+        for k, v in saved_env.items():
+            if v is None:
+                os.environ.pop(k, None)
+            else:
+                os.environ[k] = v
+        shutil.rmtree(home, ignore_errors=True)
 
 
 REAL_SCRIPT = r'''
 import json, os, sys, time
 sys.path.insert(0, "/verif")
 cfg = json.loads(sys.argv[1])
+if cfg.get("home"):
+    os.environ.update(HOME=cfg["home"], XDG_CACHE_HOME=cfg["home"] + "/cache", XDG_CONFIG_HOME=cfg["home"] + "/config", XDG_STATE_HOME=cfg["home"] + "/state")
 import requests
 from click.testing import CliRunner
 import ascmhl.commands as C
@@ -405,15 +445,20 @@ def real(sym):
     hang = sym.flag("server_never_answers")
     L = sym.choose("response_latency_ms", LATENCIES) if not hang else HANG
     outcome = sym.choose("command_outcome", OUTCOMES)
+    earlier = sym.choose("earlier_invocation_got", ["nothing", "http-429-ratelimited", "tag:v99.0.0"])
     busy = sym.int("command_duration_ms", 0, 5000) / 1000.0
     sym.int("late_thread_runs_before_read", 1, 9)
     verbose_cmd = sym.flag("command_run_with_v")
     d = tempfile.mkdtemp(prefix="mhlverif-c20-")
     try:
         open(os.path.join(d, "f.txt"), "w").write("x")
+        home = d + "-home"
+        if earlier != "nothing":
+            # an earlier, complete invocation of the tool by the same user (same cache / config folders)
+            run_real({"tool": tool, "behaviour": earlier, "latency_s": 0, "dir": d, "verbose": False, "busy_s": 0, "outcome": "ok", "home": home})
         base = run_real({"tool": tool, "behaviour": "conn-error", "latency_s": 0, "dir": d, "verbose": verbose_cmd, "busy_s": busy, "outcome": outcome})  # timing reference only
         lat = 20.0 if hang else min(L, 4000) / 1000.0
-        got = run_real({"tool": tool, "behaviour": behaviour, "latency_s": lat, "dir": d, "verbose": verbose_cmd, "busy_s": busy, "outcome": outcome})
+        got = run_real({"tool": tool, "behaviour": behaviour, "latency_s": lat, "dir": d, "verbose": verbose_cmd, "busy_s": busy, "outcome": outcome, "home": home})
         tag = "server %s latency %.1fs%s, command %s" % (behaviour, lat, " (hang)" if hang else "", outcome)
         pse.require(got.get("exit") is not None, "command-did-not-finish", "%s: %s" % (tag, str(got)[:300]))
         pse.require(got["exc"] == got["bare_exc"], "result-callback-raises", "%s: %s" % (tag, got.get("exc")))
@@ -428,7 +473,7 @@ def real(sym):
             return g["t_cmd"] - b0["t_cmd"] > 1.5 or g["wall"] - b0["wall"] > 2.2
         if too_slow(got, base):
             base2 = run_real({"tool": tool, "behaviour": "conn-error", "latency_s": 0, "dir": d, "verbose": verbose_cmd, "busy_s": busy, "outcome": outcome})
-            got2 = run_real({"tool": tool, "behaviour": behaviour, "latency_s": lat, "dir": d, "verbose": verbose_cmd, "busy_s": busy, "outcome": outcome})
+            got2 = run_real({"tool": tool, "behaviour": behaviour, "latency_s": lat, "dir": d, "verbose": verbose_cmd, "busy_s": busy, "outcome": outcome, "home": home})
             pse.require(not too_slow(got2, base2), "termination-delayed-more-than-1s",
                         "%s: command took %.2fs / %.2fs (reference %.2fs / %.2fs), process %.2fs / %.2fs (reference %.2fs / %.2fs)"
                         % (tag, got["t_cmd"], got2["t_cmd"], base["t_cmd"], base2["t_cmd"], got["wall"], got2["wall"], base["wall"], base2["wall"]))
@@ -436,6 +481,7 @@ def real(sym):
         import shutil
         shutil.rmtree(d, ignore_errors=True)
         shutil.rmtree(d + "-unsealed", ignore_errors=True)
+        shutil.rmtree(d + "-home", ignore_errors=True)
 
 
 def fn(sym):
